@@ -97,12 +97,12 @@ exit 0
 
 // one execution as a hook process reported it
 type c17Exec struct {
-	hook    *c17Hook
-	bind    *c17Bind
-	typ     string
-	n       int
-	objs    []string
-	line    int // index of its `start` line in the log
+	hook *c17Hook
+	bind *c17Bind
+	typ  string
+	n    int
+	objs []string
+	line int // index of its `start` line in the log
 }
 
 // c17ReadExecs: the executions in log order, the index of the STOP line (-1: none), the number of lines.
